@@ -52,6 +52,7 @@ type AccIn struct {
 	DelegFromNode []int      `json:"deleg_from_node,omitempty"`
 	DelegRaw     *string     `json:"deleg_raw,omitempty"` // overrides the DelegationsHash field bytes
 	RawLeaf      string      `json:"raw_leaf,omitempty"`  // leaf value that is not an account
+	RootOfCode   *int        `json:"root_of_code,omitempty"` // storage root := hash of account j's code (not a trie node)
 }
 
 type SOp struct {
@@ -97,6 +98,7 @@ type accInfo struct {
 	deleg   []byte
 	delegH  common.Hash
 	hasDel  bool
+	rootOdd bool // the storage root is not a trie
 }
 
 type Src struct {
@@ -127,6 +129,11 @@ func hashedNodes(tdb *trie.Database, root common.Hash) []common.Hash {
 	var out []common.Hash
 	if root == trie.VerifC19EmptyRoot {
 		return out
+	}
+	if blob, _ := tdb.DiskDB().Get(root[:]); len(blob) > 0 {
+		if n, err := trie.VerifC19Decode(root[:], blob); err != nil || n == nil {
+			return out
+		}
 	}
 	t, err := trie.New(root, tdb)
 	if err != nil {
@@ -168,6 +175,14 @@ func (s *Src) walk(root common.Hash, isState bool, seen map[common.Hash]bool) {
 		return
 	}
 	seen[root] = true
+	if !isState {
+		// a storage root that is absent from the source or is not a trie node (odd sources)
+		blob, _ := s.db.Get(root[:])
+		if n, err := trie.VerifC19Decode(root[:], blob); err != nil || n == nil {
+			s.wellFormed = false
+			return
+		}
+	}
 	t, err := trie.New(root, s.tdb)
 	if err != nil {
 		panic(fmt.Sprintf("source trie %x: %v", root, err))
@@ -227,7 +242,7 @@ func buildSource(in *CaseIn) *Src {
 			}
 			ai.root, ai.storage = buildTrie(s.tdb, es)
 			fromNode := func(sel []int) []byte {
-				if len(sel) != 2 || sel[0] < 0 || sel[0] >= i {
+				if len(sel) != 2 || sel[0] < 0 || sel[0] >= i || s.accs[sel[0]].rootOdd {
 					return nil
 				}
 				hs := hashedNodes(s.tdb, s.accs[sel[0]].root)
@@ -274,6 +289,12 @@ func buildSource(in *CaseIn) *Src {
 				ai.hasDel = false
 			}
 			ai.delegH = common.BytesToHash(delegHash)
+			if a.RootOfCode != nil && *a.RootOfCode >= 0 && *a.RootOfCode < i && s.accs[*a.RootOfCode].hasCode {
+				ai.root = s.accs[*a.RootOfCode].codeH
+				ai.storage = nil
+				ai.rootOdd = true
+				s.wellFormed = false
+			}
 			if a.RawLeaf != "" {
 				ai.leaf = unhex(a.RawLeaf)
 				var obj state.Account
@@ -593,6 +614,12 @@ func (r *runner) compareContent() string {
 		if !a.isAcct {
 			continue
 		}
+		if a.rootOdd {
+			if c, _ := r.dst.Get(a.root[:]); !bytes.Equal(c, r.srcBlob(a.root)) {
+				return fmt.Sprintf("account %d odd storage root entry missing or different", i)
+			}
+			continue
+		}
 		st, err := readTrie(r.dst, a.root)
 		if err != nil {
 			return fmt.Sprintf("account %d storage: %v", i, err)
@@ -803,6 +830,7 @@ func (r *runner) exec(o SOp) {
 		var items []trie.SyncResult
 		var xs []string
 		var take []int
+		taken := map[int]bool{}
 		for j, p := range o.Picks {
 			how := "ok"
 			if j < len(o.Hows) {
@@ -816,10 +844,18 @@ func (r *runner) exec(o SOp) {
 				h = r.src.all[idx(p, len(r.src.all))]
 			} else {
 				i := idx(p, len(r.pool))
-				h = r.pool[i]
 				if how != "dup" {
+					// distinct pool entries unless a duplicate is wanted
+					for n := 0; n < len(r.pool) && taken[i]; n++ {
+						i = (i + 1) % len(r.pool)
+					}
+					if taken[i] {
+						continue
+					}
+					taken[i] = true
 					take = append(take, i)
 				}
+				h = r.pool[i]
 			}
 			blob := r.srcBlob(h)
 			if blob == nil {
@@ -889,6 +925,10 @@ func (r *runner) exec(o SOp) {
 			if len(r.pool) == 0 {
 				break
 			}
+			if r.sched.Pending() == 0 {
+				r.pool = nil
+				break
+			}
 			progress := false
 			todo := r.pool
 			r.pool = nil
@@ -906,7 +946,8 @@ func (r *runner) exec(o SOp) {
 				}
 			}
 			r.commit(-1, round%2 == 1)
-			if !progress && r.sched.Pending() > 0 {
+			// stale queue entries (answered before they were asked for) do not count as a stall
+			if !progress && len(got) == 0 {
 				break
 			}
 		}
@@ -926,13 +967,24 @@ func runCase(in *CaseIn) (res *runResult) {
 	pre := map[common.Hash]bool{}
 	for _, p := range in.Pre {
 		if len(r.src.all) > 0 {
-			r.src.closure(r.src.all[idx(p, len(r.src.all))], pre)
+			one := map[common.Hash]bool{}
+			r.src.closure(r.src.all[idx(p, len(r.src.all))], one)
+			ok := true
+			for h := range one { // odd sources: something the entry needs does not exist anywhere
+				for _, c := range r.src.need[h] {
+					if !one[c] {
+						ok = false
+					}
+				}
+			}
+			if ok {
+				for h := range one {
+					pre[h] = true
+				}
+			}
 		}
 	}
 	for h := range pre {
-		if r.src.clash(h) {
-			continue
-		}
 		b, _ := r.src.db.Get(h[:])
 		r.dst.Put(h[:], b)
 	}
@@ -1087,6 +1139,10 @@ func genCase(r *vf.Rng) *CaseIn {
 				s := hx(r.Bytes(int(r.Pick([]uint64{0, 20, 32}))))
 				a.CodeHashRaw = &s
 			}
+			if i > 0 && r.Chance(2) { // storage root pointing at a code blob: the node request gets undecodable data
+				j := r.Intn(i)
+				a.RootOfCode = &j
+			}
 			if r.Chance(2) { // a leaf that is not an account: the callback fails
 				a.RawLeaf = hx(r.Bytes(1 + r.Intn(40)))
 			}
@@ -1116,6 +1172,9 @@ func genCase(r *vf.Rng) *CaseIn {
 	steps := 2 + r.Heavy(160)
 	for s := 0; s < steps; s++ {
 		x := r.Intn(100)
+		if (s == 0 || in.Script[len(in.Script)-1].Op == "restart") && r.Chance(75) {
+			x = 0 // usually ask before answering
+		}
 		switch {
 		case x < 22:
 			in.Script = append(in.Script, SOp{Op: "missing", N: int(r.Pick([]uint64{0, 1, 1, 2, 3, 5, 16, 384}))})
@@ -1143,9 +1202,9 @@ func genCase(r *vf.Rng) *CaseIn {
 			for k := 0; k < 2+r.Intn(6); k++ {
 				o.Picks = append(o.Picks, r.Intn(1<<20))
 				h := "ok"
-				if r.Chance(12) {
+				if r.Chance(8) {
 					h = "dup"
-				} else if r.Chance(10) {
+				} else if r.Chance(6) {
 					h = "unasked"
 				}
 				o.Hows = append(o.Hows, h)
@@ -1153,12 +1212,15 @@ func genCase(r *vf.Rng) *CaseIn {
 			in.Script = append(in.Script, o)
 		case x < 91:
 			o := SOp{Op: "commit", N: -1}
-			if r.Chance(25) {
-				o.N = r.Intn(6)
+			if r.Chance(40) {
+				o.N = r.Intn(4)
 			} else if r.Chance(20) {
 				o.Batch = true
 			}
 			in.Script = append(in.Script, o)
+			if o.N >= 0 && r.Chance(40) { // the process dies right after the failed write
+				in.Script = append(in.Script, SOp{Op: "restart"})
+			}
 		case x < 95:
 			in.Script = append(in.Script, SOp{Op: "restart"})
 		default:
@@ -1193,7 +1255,10 @@ func loadCorpus(dir string) []*CaseIn {
 }
 
 func gen(seed uint64, n int, outDir, corpusDir string) {
+	// shards use seeds a fixed distance apart and splitmix streams of nearby seeds
+	// are shifted copies of each other: start from a hashed seed instead
 	r := vf.NewRng(seed)
+	r = vf.NewRng(r.U64() ^ (seed * 0xD1342543DE82EF95))
 	res := vf.NewResult("C19", seed)
 	var sb strings.Builder
 	sb.WriteString("From VF.C19 Require Import Model.\nLocal Open Scope N_scope.\nDefinition cases : list case := [\n")
